@@ -57,11 +57,23 @@ var (
 
 type vCrash struct{ at string }
 
+// vCrashArmed: every crash point reached while armed is a nondeterministic choice "crash here / go on" (one crash per
+// path). vCrashAt (k-th crash point) is the older, index-based selection and still works.
+var vCrashArmed bool
+var vCrashedAt string
+
 func vCrashPoint(id string) {
 	vCrashSeq++
 	if vCrashAt == vCrashSeq {
 		vReach("crash")
-		panic(vCrash{id})
+		vCrashedAt = id
+		vCrashNow()
+	}
+	if vCrashArmed && vChoice(2) == 1 {
+		vCrashArmed = false
+		vReach("crash")
+		vCrashedAt = id
+		vCrashNow()
 	}
 }
 
